@@ -20,8 +20,8 @@ SENT = 1000
 
 
 class Printer:
-    def __init__(s, prog, litvals=None, include_defs=False):
-        s.lines = {'m': []}; s.prog = prog; s.lit = litvals; s.include = include_defs
+    def __init__(s, prog, litvals=None, include_defs=False, compact=False):
+        s.lines = {'m': []}; s.prog = prog; s.lit = litvals; s.include = include_defs; s.compact = compact
 
     def litstr(s, k):
         return str(SENT + k if s.lit is None else s.lit[k])
@@ -75,6 +75,8 @@ class Printer:
             s.stmts(f, d['body'], 1)
             L.append('END')
         s.stmts('m', s.prog['main'], 0)
+        if s.compact:
+            return {k: ' '.join(x.strip() for x in v) + '\n' for k, v in s.lines.items()}
         return {k: '\n'.join(v) + '\n' for k, v in s.lines.items()}
 
 
@@ -95,8 +97,8 @@ def line_table(prog, include_defs=False):
     f = 'm'
     if include_defs and prog['defs']:
         cnt['m'] += 1; f = 'i'
-    for d in prog['defs']:
-        cnt[f] += 1; pos[('hdr', d['name'])] = (f, cnt[f]); walk(f, d['body']); cnt[f] += 1; pos[('end', d['name'])] = (f, cnt[f])
+    for di, d in enumerate(prog['defs']):
+        cnt[f] += 1; pos[('hdr', di)] = (f, cnt[f]); walk(f, d['body']); cnt[f] += 1; pos[('end', di)] = (f, cnt[f])
     walk('m', prog['main'])
     return pos
 
@@ -104,11 +106,13 @@ def line_table(prog, include_defs=False):
 class RefCompiler:
     """AST -> reference code per routine.  Variables are numbered per routine; hidden ones (loop counters, temporaries
     for nested calls) get names starting with '%'."""
-    def __init__(s, prog, include_defs=False):
+    def __init__(s, prog, include_defs=False, compact=False):
         s.prog = prog; s.pos = line_table(prog, include_defs); s.routines = []; s.names = {}
+        # compact layout (whole program on line 1): the only breakpoint site is the first statement of a program without definitions
+        s.compact = compact; s.compact_line_done = bool(prog['defs'])
         s.defs_seen = {}
-        for d in prog['defs']:
-            s.routine(d['name'], d['params'], d['out'] if d['out'] is not None else 'x0', d['body'], ('end', d['name']))
+        for di, d in enumerate(prog['defs']):
+            s.routine(d['name'], d['params'], d['out'] if d['out'] is not None else 'x0', d['body'], ('end', di))
             s.defs_seen[d['name']] = len(s.routines) - 1      # a later definition of the same name replaces the earlier one for later calls
         s.routine('#root', [], None, prog['main'], None)
 
@@ -118,7 +122,9 @@ class RefCompiler:
         s.nparams = len(params)
         s.block(body)
         if endkey is not None:
-            f, l = s.pos[endkey]; s.code.append(('LINE', f, l, 0)); s.code.append(('RET', s.var(out), 0, 0))
+            f, l = s.pos[endkey]
+            if not s.compact: s.code.append(('LINE', f, l, 0))
+            s.code.append(('RET', s.var(out), 0, 0))
         else:
             s.code.append(('HALT', 0, 0, 0))
         for i, lab in s.fix:
@@ -154,7 +160,8 @@ class RefCompiler:
             # the label designates the line event of its statement
             s.labels[st[1]] = len(s.code); s.stmt(st[2]); return
         f, l = s.pos[id(st)]
-        s.code.append(('LINE', f, l, 0))
+        if not s.compact: s.code.append(('LINE', f, l, 0))
+        elif not s.compact_line_done: s.code.append(('LINE', 'm', 1, 0)); s.compact_line_done = True
         if k == 'set': s.code.append(('SETC', s.var(st[1]), st[2], 0))
         elif k == 'copy': s.code.append(('COPY', s.var(st[1]), s.var(st[2]), 0))
         elif k == 'add': s.code.append(('ADDC', s.var(st[1]), s.var(st[2]), st[3]))
@@ -168,13 +175,15 @@ class RefCompiler:
             s.block(st[2])
             s.code.append(('DEC', c, 0, 0)); s.code.append(('JMP', top, 0, 0))
             s.code[top] = ('JZ', c, len(s.code), 0)
-            f2, l2 = s.pos[(id(st), 'end')]; s.code.append(('LINE', f2, l2, 0))
+            f2, l2 = s.pos[(id(st), 'end')]
+            if not s.compact: s.code.append(('LINE', f2, l2, 0))
         elif k == 'while':
             top = len(s.code); s.code.append(('JZ', s.var(st[1]), None, 0))
             s.block(st[2])
             s.code.append(('JMP', top, 0, 0))
             s.code[top] = ('JZ', s.var(st[1]), len(s.code), 0)
-            f2, l2 = s.pos[(id(st), 'end')]; s.code.append(('LINE', f2, l2, 0))
+            f2, l2 = s.pos[(id(st), 'end')]
+            if not s.compact: s.code.append(('LINE', f2, l2, 0))
         elif k == 'goto':
             s.fix.append((len(s.code), st[1])); s.code.append(('JMP', None, 0, 0))
         elif k == 'ifgoto':
